@@ -18,7 +18,7 @@ operation that raises part-way returns the state reached at that point together 
 
 HDF5 / PyTables / `pandas.HDFStore` themselves are modelled (trusted base), not verified. Not
 modelled: the reserved child names `table` / `meta` of a pandas storer group (the harness never uses
-them as a key part), key parts containing `/`. -/
+them as a key part). -/
 namespace Viv.Artifact
 
 /-- a dotted key split on `"."` -/
@@ -27,9 +27,9 @@ abbrev Key := List String
 /-- `Keys.keyspace_node` -/
 def ksKey : Key := ["metadata", "keyspace"]
 
-/-- `EntityKey.__init__`: two or three non-empty parts. -/
+/-- `EntityKey.__init__`: two or three non-empty parts, no `/` anywhere (`fix:` F27). -/
 def wellFormed (k : Key) : Bool :=
-  (k.length == 2 || k.length == 3) && k.all (fun e => e != "")
+  (k.length == 2 || k.length == 3) && k.all (fun e => e != "" && e.toList.all (· != '/'))
 
 /-- HDF path `p` is at or above path `q` (`EntityKey.path`: the path is the list of parts). -/
 def above (p q : Key) : Bool := p.isPrefixOf q
@@ -348,12 +348,15 @@ def Term.cols : Term → List String
 
 /-- what is stored for a pandas object as far as filters can see it: the queryable columns
 (`node.table.colnames`: `index`, the levels of a MultiIndex, every column of an "empty" frame), the
-rows restricted to them, the value columns, `metadata["is_empty"]`. -/
+rows restricted to them, the value columns, `metadata["is_empty"]`, whether it is a Series. Values are
+integers: the harness scales every number by 8 (all generated numbers are multiples of 1/8) and replaces
+strings by codes (only `==` / `!=` are used on them), in the rows and in the terms alike. -/
 structure Table where
-  qcols   : List String := []
-  rows    : List (List Int) := []
-  cols    : List String := []
-  isEmpty : Bool := false
+  qcols    : List String := []
+  rows     : List (List Int) := []
+  cols     : List String := []
+  isEmpty  : Bool := false
+  isSeries : Bool := false
 deriving DecidableEq, Repr
 
 /-- `_get_valid_filter_terms`: a term survives iff every column it references exists -/
@@ -383,6 +386,7 @@ def isDraws : Term → Bool
 def drawColumns (terms : List Term) : Option (Option (List String)) :=
   match terms.filter isDraws with
   | [] => some none
+  | [.draws []] => none        -- `draw in []`: `int("")` raises
   | [.draws ns] => some (some (ns.map (fun n => "draw_" ++ toString n) ++ ["value"]))
   | _ => none
 
@@ -428,17 +432,29 @@ def FOp.key? : FOp → Option Key
   | .op o => o.key?
   | .reopenWith _ => none
 
+/-- `pandas.read_hdf(columns=…)` on a stored Series selects by position in an empty selection when the
+draw filter's column list does not contain the Series' name: `IndexError` – the load raises. -/
+def loadRaises (t : Table) (cf : Option (List String)) : Bool :=
+  match cf with
+  | none => false
+  | some want => t.isSeries && !t.isEmpty && (want.filter t.cols.contains).isEmpty
+
+/-- the other live artifact object on the same file: it sees the file as it is now, through its own –
+possibly stale – key list and cache -/
+def FArt.onFile (fa : FArt) (now : Art) : FArt :=
+  { fa with art := { fa.art with file := now.file, groups := now.groups } }
+
 /-- what `load` hands out for a table node -/
 structure View where
   rows : List (Nat × List Int)
   cols : List String
 deriving DecidableEq, Repr
 
-/-- `hdf.load` of a stored table through an artifact with `terms` (`none`: two draw terms – such an
-artifact cannot be constructed) -/
+/-- `hdf.load` of a stored table through an artifact with `terms`; `none`: the load raises (a Series the
+draw selection does not name), or such an artifact cannot be constructed (two draw terms) -/
 def viewOf (t : Table) (terms : List Term) : Option View :=
   match drawColumns terms with
   | none => none
-  | some cf => some { rows := loadRows t terms, cols := loadCols t cf }
+  | some cf => if loadRaises t cf then none else some { rows := loadRows t terms, cols := loadCols t cf }
 
 end Viv.Artifact
